@@ -375,11 +375,11 @@ impl TransactionCoordinator {
         // xmin is the smallest active transaction ID (or our ID if none active)
         let xmin = active.iter().min().copied().unwrap_or(txid);
 
-        // xmax is the last committed transaction from PageZero
-        let xmax = {
-            let last = self.get_last_committed();
-            if last == 0 { None } else { Some(last) }
-        };
+        // xmax is the last committed transaction from PageZero. Transaction ids start at 0, so
+        // 0 is a real bound: reading it as "no bound" gave every snapshot taken while
+        // transaction 0 was the only committed one (typically right after the first CREATE
+        // TABLE of a new database) no upper limit at all, and it saw every later commit.
+        let xmax = Some(self.get_last_committed());
 
         Ok(Snapshot::new(txid, xmin, xmax, active, aborted))
     }
